@@ -187,6 +187,12 @@ pub fn run_case(kind: &str, t: &mut Toks) -> String {
             format!("\"center\":{},\"radius\":{}", json::v3(c), json::f(r))
         }
         "geom" => crate::geom::run(t),
+        "hsclip" => {
+            // hsclip <n:3> <p:3> <v:3>: the floating-point filter of HalfSpace::clip through the public API
+            let (n, p, v) = (t.v3(), t.v3(), t.v3());
+            let h = meshless_voronoi::HalfSpace::new(n, p, None, None);
+            format!("\"r\":{}", json::f(h.clip(v)))
+        }
         "nn" => {
             // nn <dim> <periodic> <width:3> <n> <gens:3n> <nq> <queries>  (width = the normalised width)
             let dim = t.dim();
